@@ -21,6 +21,8 @@ def parseOp (j : Json) : R Op := do
   | "force" => pure (.force (← nat j "i") (← bool j "del"))
   | "chain_force" => pure (.chainForce (← natList (← obj j "nodes")) (← natList (← obj j "S")) (← bool j "del")
                             (← bool j "recompute") (← natList (← obj j "order")))
+  | "chain_force_f" => pure (.chainForceF (← natList (← obj j "nodes")) (← natList (← obj j "S")) (← bool j "del")
+                            (← natList (← obj j "order")) (← natList (← obj j "failing")))
   | "inspect" => pure (.inspect (← nat j "i"))
   | _ => throw "bad_op"
 
